@@ -291,11 +291,12 @@ ShareChoices(prim) == {0} \cup (IF ShareTypes
 PGMembers(o) == {m \in SUBSET {d \in Children(file, o) : file.nodes[d].kind = "data" /\ file.nodes[d].cls # "text"} :
                      m # {} /\ Cardinality(m) <= 2}
 Next ==
-    \/ \E p \in {Root} \cup GroupNodes(file), low \in BOOLEAN : AddGroup(p, low)
-    \/ \E p \in {Root} \cup GroupNodes(file), c \in ObjClasses : AddObject(p, c)
-    \/ \E o \in ObjectNodes(file), prim \in Prims : \E share \in ShareChoices(prim) : AddData(o, prim, share)
-    \/ \E o \in ObjectNodes(file) : \E m \in PGMembers(o) : AddPG(o, m)
-    \/ \E i \in Items(file) : DeleteItem(i)
+    \/ /\ phase = "build"         \* (guard first: Items(file) is only built where a fault can be injected)
+       /\ \/ \E p \in {Root} \cup GroupNodes(file), low \in BOOLEAN : AddGroup(p, low)
+          \/ \E p \in {Root} \cup GroupNodes(file), c \in ObjClasses : AddObject(p, c)
+          \/ \E o \in ObjectNodes(file), prim \in Prims : \E share \in ShareChoices(prim) : AddData(o, prim, share)
+          \/ \E o \in ObjectNodes(file) : \E m \in PGMembers(o) : AddPG(o, m)
+          \/ \E i \in Items(file) : DeleteItem(i)
     \/ Open
 Spec == Init /\ [][Next]_vars
 
@@ -330,7 +331,6 @@ NamedByProperty ==
 FaultIsSingle == [][phase # "build" => file' = file]_vars
 TypeOK ==
     /\ phase \in {"build", "faulted", "opened"}
-    /\ (phase = "faulted" => item \in Items(file))
     /\ (phase = "build" =>
           /\ \A n \in Nodes(file) : file.nodes[n].parent \in {Root} \cup Nodes(file) /\ file.nodes[n].parent < n
           /\ \A n \in Nodes(file) : file.nodes[n].ty \in 1..Len(file.types)
